@@ -350,3 +350,9 @@ fn k18_pre_cls_n3() {
 fn k18_pre_cls_n4() {
     pre_order_harness(4, true)
 }
+
+#[kani::proof]
+#[kani::unwind(9)]
+fn k18_dbg_pre_n2() {
+    pre_order_harness(2, false)
+}
